@@ -13,6 +13,7 @@ import (
 	"ti/lexer/reader"
 	"ti/loader"
 	"ti/parser"
+	"ti/verifhook"
 	"time"
 )
 
@@ -191,17 +192,20 @@ func evaluationLoop(
 
 	if flags.IsExtends {
 		cmd.PrintTargetClassExtends()
+		verifhook.Exit(0)
 		os.Exit(0)
 	}
 
 	if len(p.Errors) > 0 && flags.IsLlmError {
 		fmt.Println("[Errors]")
 		cmd.PrintAllErrorsForPlugin(p)
+		verifhook.Exit(0)
 		os.Exit(0)
 	}
 
 	if len(p.Errors) > 0 {
 		cmd.PrintAllErrorsForPlugin(p)
+		verifhook.Exit(0)
 		os.Exit(0)
 	}
 }
